@@ -114,7 +114,7 @@ def gen_case(rng):
 
 
 def generate(rng, tier):
-    n = 110 if tier == 'quick' else 1100
+    n = 90 if tier == 'quick' else 1100
     return [gen_case(rng) for _ in range(n)]
 
 
